@@ -109,6 +109,8 @@ type MayPanic struct {
 	NilableField func(owner, field string) bool
 	// NilableResult: functions (by name) whose pointer result may be nil.
 	NilableResult map[string]bool
+	// NilOnlyForNilArg: among those, the ones that answer nil only when their first argument is nil.
+	NilOnlyForNilArg map[string]bool
 	// guard function summaries: callee name -> facts about argument 0 when the call is true
 	guardSummaries map[*types.Func][]guardFact
 	// regexp group counts for package-level regexp variables and struct fields
@@ -973,6 +975,10 @@ func (m *MayPanic) checkDeref(base ast.Expr, at ast.Expr, f mpFacts) {
 			}
 		}
 	case *ast.CallExpr:
+		if fn := Callee(m.info, x); fn != nil && m.NilOnlyForNilArg[fn.Name()] && len(x.Args) >= 1 && f["nn:"+es(ast.Unparen(x.Args[0]))] > 0 {
+			m.report(PKNilDeref, at, true, "result of "+es(x.Fun)+" is nil only for a nil argument, and "+es(x.Args[0])+" is not nil here", nil, 0)
+			return
+		}
 		if m.maybeNil(x, -1) {
 			m.report(PKNilDeref, at, false, "result of "+es(x.Fun)+" may be nil", nil, 0)
 		}
